@@ -37,7 +37,7 @@ def generate(ctx):
              "B": rng.randint(1, 3), "T": rng.randint(6, 12), "signs": rng.randrange(4), "trace_mode": rng.choice(["cumulative", "nearest"]),
              "delay": delay, "delayed": (rng.random() < 0.5) if (delay and name in tr.HAS_DELAYED_FLAG) else False,
              "reduction": rng.choice(["sum", "sum", "mean", "amax"]), "reward": rng.choice(["scalar+", "scalar-", "tensor", "tensor"]),
-             "scale": rng.choice([1.0, 0.5, 2.0]), "p": rng.choice([0.3, 0.5, 0.8]), "seed": rng.randrange(1 << 30),
+             "scale": rng.choice([1.0, 0.5, 2.0, -0.5, -1.5]), "p": rng.choice([0.3, 0.5, 0.8]), "seed": rng.randrange(1 << 30),
              "reassign_delays": bool(delay) and rng.random() < 0.4, "per_cell": rng.random() < 0.4,
              "lr_a3": rng.choice([0.3, -0.3, 1.5, -1.5]), "lr_b3": rng.choice([0.2, -0.2, 1.2, -1.2]),
              "clear_at": rng.choice([None, None, 3, 5]), "keepshape": rng.random() < 0.6,
@@ -74,7 +74,7 @@ def generate(ctx):
         yield {"part": "multicell", "trainer": MULTI[i % len(MULTI)], "dt": rng.choice([1.0, 0.5]), "B": rng.randint(1, 2), "T": rng.randint(6, 10),
                "hypers": [base, other], "topology": ["fan_in", "fan_out", "two_layers"][(i // len(MULTI)) % 3], "freeze_at": rng.choice([3, 5, 10 ** 9]),
                "reduction": "sum", "reward": rng.choice(["scalar+", "scalar-", "tensor"]),
-               "scale": rng.choice([1.0, 0.25, 2.0]), "p": rng.choice([0.4, 0.7]), "seed": rng.randrange(1 << 30),
+               "scale": rng.choice([1.0, 0.25, 2.0, -0.5, -1.5]), "p": rng.choice([0.4, 0.7]), "seed": rng.randrange(1 << 30),
                "partial_calls": rng.random() < 0.6}
 
 
